@@ -76,8 +76,11 @@ static uint64_t one_op (stream_t *s, int i, vf_rng *r)
         if (!src) own = src = own_solid (r);
         static const pixman_op_t ops[] = { PIXMAN_OP_OVER, PIXMAN_OP_DISJOINT_OVER, PIXMAN_OP_CONJOINT_XOR, PIXMAN_OP_MULTIPLY, PIXMAN_OP_HSL_HUE, PIXMAN_OP_SATURATE, PIXMAN_OP_ADD, PIXMAN_OP_COLOR_DODGE };
         pixman_op_t op = VF_PICK (r, ops); pixman_image_t *mask = vf_chance (r, 1, 3) ? shared_mask (r) : NULL;
+        /* ordered dithering of the (private) destination: runs in the float pipeline with the library's dither matrices */
+        int dith = vf_chance (r, 1, 3);
+        if (dith) { pixman_image_set_dither (dst, vf_chance (r, 1, 2) ? PIXMAN_DITHER_ORDERED_BAYER_8 : PIXMAN_DITHER_ORDERED_BLUE_NOISE_64); pixman_image_set_dither_offset (dst, (int)vf_range (r, 0, 70), (int)vf_range (r, 0, 70)); }
         if (src) pixman_image_composite32 (op, src, mask, dst, (int)vf_range (r, -3, 3), 0, 0, 0, 0, 0, w, h);
-        snprintf (s->what[i], 40, "%s w=%d %s", ro_op_name (op), w, rp_name (f));
+        snprintf (s->what[i], 40, "%s w=%d %s%s", ro_op_name (op), w, rp_name (f), dith ? " dithered" : "");
         d = image_digest (dst); s->pixels += (long)w * h; pixman_image_unref (dst); if (own) pixman_image_unref (own); break; }
     case K_FILL: {
         pixman_image_t *dst = pixman_image_create_bits (VF_PICK (r, ((pixman_format_code_t[]){ PIXMAN_a8r8g8b8, PIXMAN_r5g6b5, PIXMAN_a8, PIXMAN_a1 })), (int)vf_range (r, 1, 90), (int)vf_range (r, 1, 12), NULL, 0); if (!dst) return 1;
